@@ -83,6 +83,10 @@ func paramIs(fn *ssa.Function, i int) func(*Term) bool {
 
 func runC13(c *Ctx) {
 	p := c.P
+	c.Rule("R8", "a received gossip message is decoded before the transport's buffer is given back (NotifyMsg does not retain its argument)", 1)
+	borrowedBufferNotRetained(c, "R8")
+	c.Rule("R7", "the client reads every answer to its end before decoding it (no length-limiting reader between the response body and ReadAll)", 1)
+	answersReadInFull(c, "R7", []*ssa.Function{p.MustMethod("client", "HTTPClient", "doReq")})
 	c.Rule("R1", "constructors and conversions bind every field to the source of the corresponding meaning", 11)
 	c.Rule("R2", "audit-path key codec agreement", 3)
 	c.Rule("R3", "binary codecs: type byte, shared msgpack handles, no aliasing of recycled buffers", 7)
